@@ -218,6 +218,21 @@ func genCLIChain(r *Runner, rng *Rng, seq int) ([]Case, bool) {
 		if rng.Chance(30) {
 			script += fmt.Sprintf("; printf %%s changed%d >> %s", i, shq(keysOf(readTree(work))[0]))
 		}
+		if rng.Chance(40) {
+			// the command also TALKS: what it prints becomes the by-products of the link, and that may
+			// hold any control character (a bell, backspaces of a progress display, a form feed, NUL);
+			// the link written for it - in either wrapper - must load again
+			// (seeded change c20-dsse-three-digit-escapes)
+			var oct strings.Builder
+			for q := 1 + rng.Intn(4); q > 0; q-- {
+				fmt.Fprintf(&oct, "\\%03o", rng.Intn(32))
+			}
+			script += "; printf 'p" + oct.String() + "q'"
+			if rng.Bool() {
+				script += " >&2"
+			}
+			feat = append(feat, "ctl-output")
+		}
 		common := []string{"-n", name, "-k", fpriv}
 		if certStep {
 			common = append(common, "-c", certFile)
